@@ -9,4 +9,8 @@ import Tibc.Props.C18
 #print axioms Tibc.C18.baseFee_above_target
 #print axioms Tibc.C18.baseFee_below_target
 #print axioms Tibc.C18.difficulty_at_least_minimum
+#print axioms Tibc.C18.created_inv
+#print axioms Tibc.C18.check_eq_apply
+#print axioms Tibc.C18.one_chain_step
+#print axioms Tibc.C18.one_chain
 #print axioms Tibc.C18.same_root_breaks_one_chain
